@@ -200,14 +200,31 @@ void prop_c10(hz::Ctx &ctx) {
     std::vector<std::pair<std::string, std::string>> exprs;
     for (int sc : {0, 3, 5, 6, 7, 9, 10, 12, 16, 32, 64}) { std::string s = std::to_string(sc);
       exprs.push_back({"bad-scale", "[rax+rbx*" + s + "]"}); exprs.push_back({"bad-scale", "[rax+" + s + "*rbx]"}); exprs.push_back({"bad-scale", "[" + s + "*rcx]"}); exprs.push_back({"bad-scale", "[rax+r9*" + s + "+8]"}); exprs.push_back({"bad-scale", "[" + s + "*r10-0x10]"}); exprs.push_back({"bad-scale", "[eax+ebx*" + s + "]"}); }
+    // every other single character in the place of the scale (a blank, a bracket, a comment sign or a line end there leaves an invalid expression too)
+    for (int ch = 0x20; ch <= 0x7e; ch++) { if (isdigit(ch) || ch == ':') continue;   /* digits are the bad-scale group; a line with a colon is a label line */ std::string s(1, (char)ch);
+      exprs.push_back({"bad-scale-char", "[rax+rbx*" + s + "]"}); exprs.push_back({"bad-scale-char", "[rax+" + s + "*rbx]"}); exprs.push_back({"bad-scale-char", "[" + s + "*rcx]"}); exprs.push_back({"bad-scale-char", "[rax+r9*" + s + "+8]"}); exprs.push_back({"bad-scale-char", "[r8d+ecx*" + s + "-8]"}); }
+    // base and index of different width: no such address exists
+    { const char *R64[] = {"rax", "rcx", "rbx", "rbp", "rsi", "r8", "r12", "r13", "r15", "rsp"}, *R32[] = {"eax", "ecx", "ebx", "ebp", "edi", "r8d", "r12d", "r13d", "r14d", "esp"};
+      for (int i = 0; i < 10; i++) for (int j = 0; j < 10; j++) for (int ord = 0; ord < 2; ord++) {
+        std::string b = ord ? R32[j] : R64[i], x = ord ? R64[i] : R32[j]; bool spi = x == "rsp" || x == "esp"; std::string g = (i == 9 && j == 9) ? "sp-base-and-index" : "mixed-width-address";
+        exprs.push_back({g, "[" + b + "+" + x + "]"});
+        if ((i + j) % 3 == 0) exprs.push_back({g, "[" + b + "+" + x + "+8]"});
+        if ((i + j) % 3 == 1) exprs.push_back({g, "[" + b + "+" + x + "-0x80]"});
+        if (!spi && (i + j) % 2 == 0) { exprs.push_back({g, "[" + b + "+" + x + "*" + std::to_string(1 << (1 + (i + j) % 3)) + "]"}); exprs.push_back({g, "[" + b + "+" + std::to_string(1 << (1 + (i * j) % 3)) + "*" + x + "+0x100]"}); }
+      } }
     for (int sc : {2, 4, 8}) { std::string s = std::to_string(sc);
       for (auto sp : {"rsp", "esp"}) { std::string b = sp[0] == 'r' ? "rax" : "eax";
         exprs.push_back({"sp-scaled-index", "[" + b + "+" + sp + "*" + s + "]"}); exprs.push_back({"sp-scaled-index", "[" + b + "+" + s + "*" + sp + "]"}); exprs.push_back({"sp-scaled-index", "[" + s + "*" + sp + "]"}); exprs.push_back({"sp-scaled-index", "[" + b + "+" + sp + "*" + s + "+0x10]"}); exprs.push_back({"sp-scaled-index", "[" + s + "*" + sp + "-8]"}); } }
     for (auto sp : {"rsp", "esp"}) { exprs.push_back({"sp-base-and-index", std::string("[") + sp + "+" + sp + "]"}); exprs.push_back({"sp-base-and-index", std::string("[") + sp + "+" + sp + "+8]"}); exprs.push_back({"sp-base-and-index", std::string("[") + sp + "+" + sp + "-0x80]"}); }
     for (auto e : {"[rax", "[rax+8", "[rax+rbx*2", "[rax+rbx*2+8", "[0x10", "[2*rax", "[r8+r9"}) exprs.push_back({"unclosed-bracket", e});
+    // expressions outside the documented shapes [base + index*scale +- offset], [base + scale*index +- offset], [scale*index +- offset], [constant]
+    for (auto e : {"[]", "[*]", "[+]", "[-]", "[*rcx]", "[*rcx+8]", "[rcx*]", "[rax+]", "[rax-]", "[+rax]", "[-rax]", "[rax++8]", "[rax--8]", "[rax-+8]", "[rax+rbx+rcx]", "[rax+rbx+rcx+8]", "[rax+8+8]", "[rax+8-8]", "[8+rax]", "[0x10+rax+rbx]",
+                   "[2*rax+rbx]", "[rax*2+rbx]", "[rax*2*2]", "[2*2*rax]", "[rax+rbx*2*2]", "[rax+2*rbx*2]", "[rax+rbx*2+1*rcx]", "[rax+0x]", "[rax+12ab]", "[rax+0x12g]", "[0x]", "[12ab]", "[rax]]", "[[rax]", "[rax+[rbx]]", "[rax,rbx]", "[rax+rbx*]", "[rax+*rbx]", "[rax+r9*+8]",
+                   "[rax-rbx]", "[rax+rbx-rcx]", "[rax+2*]", "[rax+*2]", "[1*]", "[rax+8*]", "[eax+ebx+ecx]", "[r8d+]", "[-eax]", "[esp+8+8]"}) exprs.push_back({"malformed-address", e});
     for (auto &h : hosts) for (auto &e : exprs) {
       std::string host0 = h[0];
       if (e.first == "unclosed-bracket" && std::string(h[1]) != "") continue; // keep the bracket unclosed up to the end of line
+      if ((e.first == "bad-scale-char" || e.first == "mixed-width-address") && !ctx.thorough() && (hz::fnv(host0 + e.second) + ctx.seed) % 4) continue;   // a seeded quarter of hosts x expressions in the quick tier
       RejCase c; c.group = e.first; c.mn = host0.substr(0, host0.find(' ')); c.form = e.second; c.bad = host0 + e.second + h[1];
       run_rej(ctx, c, rng, allp);
     }
